@@ -17,6 +17,7 @@ import json
 import os
 import shutil
 import signal
+import sqlite3
 import subprocess
 import sys
 import tempfile
@@ -58,7 +59,7 @@ def enc_key(k):
     return [4]
 
 
-def enc_pv(v):
+def enc_pv(v, parents=()):
     if v is None:
         return [0]
     if isinstance(v, bool):
@@ -69,13 +70,30 @@ def enc_pv(v):
         return [3, u8(v.hex())]
     if isinstance(v, str):
         return [4, u8(v)]
-    if isinstance(v, list):
-        return [5, [enc_pv(x) for x in v]]
-    if isinstance(v, tuple):
-        return [6, [enc_pv(x) for x in v]]
-    if isinstance(v, dict):
-        return [7, [[enc_key(k), enc_pv(x)] for k, x in v.items()]]
-    return [8]
+    if isinstance(v, (list, tuple, dict)):
+        if any(v is p for p in parents):
+            return [8, 1]                 # a container that contains itself: ValueError (circular reference)
+        ps = parents + (v,)
+        if isinstance(v, list):
+            return [5, [enc_pv(x, ps) for x in v]]
+        if isinstance(v, tuple):
+            return [6, [enc_pv(x, ps) for x in v]]
+        return [7, [[enc_key(k), enc_pv(x, ps)] for k, x in v.items()]]
+    return [8, 2]                         # set, bytes, ...: TypeError
+
+
+def _cyclic_values():
+    a = [1]
+    a.append(a)
+    b = {"k": 0}
+    b["self"] = b
+    c = [[], {"x": None}]
+    c[1]["up"] = c
+    d = [(1, 2)]
+    d.append(d)                           # the tuple is met first: TypeError from the strict check
+    e = [{1, 2}]
+    e.insert(0, e)                        # the cycle is met first
+    return [a, b, c, d, e]
 
 
 def dumps_or_none(v):
@@ -152,22 +170,22 @@ def new_db():
 
 
 def quick_busy(conn):
-    # environment tuning only: a locked database must surface as an exception after 100 ms, not 5 s
+    # environment tuning only: a locked database must surface as an exception after 20 ms, not 5 s
     try:
-        conn.execute("PRAGMA busy_timeout=100;")
+        conn.execute("PRAGMA busy_timeout=20;")
     except Exception:      # noqa: BLE001
         pass
 
 
 # ----------------------------------------------------------------------------- pools
-SYS = ["a", "b", "", "A", "é", "a b", "ab", "a?x", "a#b", "a%b", "a/b", "a+b", "node1", "node1?rack=7"]
-KEYS = ["k", "", "flag", "k:x", "K", "ü"]
+SYS = ["a", "b", "", "A", "é", "e\u0301", "a b", "ab", "a?x", "a#b", "a%b", "a/b", "a+b", "node1", "node1?rack=7"]
+KEYS = ["k", "", "flag", "k:x", "K", "ü", "u\u0308"]
 VALUES = [None, True, False, 0, 1, -1, 1.0, -0.0, 0.1, 2 ** 63, 2 ** 64 + 1, -(10 ** 30), 1e308, float("inf"),
           float("nan"), "", "a", "1", "é€\U0001F600", "a\x00b", "\ud800", [], {}, [1, [2, {"k": None}]],
           {"a": {"b": [True, 1.5]}}, {"b": 1, "a": 2}, [1, 1.0, True], "null",
           # not JSON-safe
           (1, 2), [1, (2,)], {"a": (1,)}, {1: "x"}, {True: 1}, {None: 0}, {"1": "y", 1: "x"}, {(1, 2): 3}, {1, 2}, b"by",
-          [[]], [{}], {"": ""}, 1e-320, 10 ** 20, "true", [None]]
+          [[]], [{}], {"": ""}, 1e-320, 10 ** 20, "true", [None], "None", "false", "0", 0.0, [0], [""], {"": None}, [False]] + _cyclic_values()
 PREFIXES = ["", "pre", "p:q", "p", "net", "p:q:r"]
 
 
@@ -207,7 +225,7 @@ SPECIAL_URIS = [("/upd/a%3Fx", "a?x", "a"), ("/upd/a%3Fx?y=1", "a?x", "a"), ("/u
                 ("/upd/a%23b", "a#b", "a"), ("/upd/a%25b", "a%b", "a"), ("/upd/a%252Fb", "a%2Fb", "a/b"), ("/upd/a%2Fb", "a/b", "a"),
                 ("/upd/a+b", "a+b", "a b"), ("/upd/a%20b?q=a%3Fb", "a b", "a"), ("/upd/%C3%A9%3F", "\u00e9?", "\u00e9"),
                 ("/upd/a?x%3Fy", "a", "a?y"), ("/upd/a%3F", "a?", "a"), ("/upd/%C3%A9", "\u00e9", "e")]
-BODIES = [b'"\xed\xa0\x80"', b'{"a": [1, 2.5, null]}', b'"x"', b"1e999", b"NaN", b"[1,", b"\xff", b"", b'{"a":1,"a":2}', b"12345678901234567890123",
+BODIES = [b"0", b'""', b"null", b"false", b"[]", b"{}", b"0.0", b'"\xed\xa0\x80"', b'{"a": [1, 2.5, null]}', b'"x"', b"1e999", b"NaN", b"[1,", b"\xff", b"", b'{"a":1,"a":2}', b"12345678901234567890123",
           b"hello", b"\xc3\xa9", b"\xff\xfe", b"true", b" 1 ", b'"\\ud800"', b"1.0", b"-0.0", b"[1, 2] x"]
 CLENS = ["=", "=", "=", None, "x", "0", "3", "-1", " 5 ", "1_0", "99"]
 
@@ -224,6 +242,12 @@ def handler_pool():
         {"path": "/upd", "action": "set_json_value_from_request_body", "key": "k", "value": None, "cal": None},
         {"path": "/upd", "action": "set_json_value_from_request_body", "key": "flag", "value": None, "cal": ["192.0.2.1"]},
         {"path": "/upd", "action": "set_text_value_from_request_body", "key": "k", "value": None, "cal": None},
+        {"path": "/upd", "action": "set_value", "key": "flag", "value": "", "cal": None},
+        {"path": "/upd", "action": "set_value", "key": "flag", "value": _cyclic_values()[1], "cal": None},
+        {"path": "/upd", "action": "set_value", "key": "flag", "value": None, "cal": None},
+        {"path": "/upd", "action": "set_value", "key": "k", "value": [], "cal": None},
+        {"path": "/upd", "action": "set_value", "key": "", "value": {}, "cal": None},
+        {"path": "/upd", "action": "delete_value", "key": "", "value": None, "cal": None},
         {"path": "/upd", "action": "set_value", "key": "flag", "value": 1, "cal": None},
         {"path": "/upd", "action": "set_value", "key": "flag", "value": 0, "cal": None},
         {"path": "/upd", "action": "set_value", "key": "k", "value": False, "cal": None},
@@ -341,6 +365,89 @@ class C15(Check):
             steps += rng.sample(tail, rng.randrange(2, 6))
             case["steps"] = steps[:8]
             yield case
+        # (A) fault "database locked": another connection holds the write lock (BEGIN IMMEDIATE) while stores and
+        #     handlers try to write; writes must report OperationalError and change nothing, reads and everything
+        #     decided before the statement are as usual; after the lock is given up the same operations succeed
+        for rep in range(40 if tier == "quick" else 400):
+            case = {"stores": [True, True, False], "sources": [(rng.choice(PREFIXES), True), ("pre", True)],
+                    "handlers": [rng.choice(hp), rng.choice(hp)]}
+            case["_vals"] = rng.sample(VALUES, 4)
+            case["_sys"] = ["a"] + rng.sample(SYS, 2)
+            case["_keys"] = ["k", "flag"] + rng.sample(KEYS, 1)
+            pre_steps = [self.rand_step(rng, case, 0.9) for _ in range(rng.randrange(1, 4))]
+            during = []
+            for _ in range(rng.randrange(1, 4)):
+                q = rng.random()
+                if q < 0.4:
+                    during.append(("handler", rng.randrange(2), {"method": rng.choice(["POST", "POST", "POST", "GET"]),
+                                   "uri": "/upd/" + rng.choice(["a", "b"]), "ip": rng.choice(["192.0.2.1", "192.0.2.2"]),
+                                   "clen": "=", "body": rng.choice([b"1", b'"x"', b"[1,", b"text", b"\xff"])}))
+                elif q < 0.8:
+                    i = rng.randrange(3)
+                    during.append(rng.choice([("store", i, "set", "a", rng.choice(case["_keys"]), rng.choice(case["_vals"])),
+                                              ("store", i, "del", "a", rng.choice(case["_keys"])),
+                                              ("store", i, "delall", rng.choice(case["_sys"]))]))
+                else:
+                    during.append(self.rand_step(rng, case, 0.0))
+            after = [rng.choice(during)] + [self.rand_step(rng, case, 0.3) for _ in range(rng.randrange(0, 3))]
+            case["steps"] = pre_steps + [("lock", True)] + during + [("lock", False)] + after
+            for k in ("_vals", "_sys", "_keys"):
+                del case[k]
+            yield case
+        # (B) 3-5 operations on ONE long-lived object with a change through another connection (another store, another
+        #     handler, a foreign program) between any two
+        for rep in range(3 if tier == "quick" else 20):
+            for h in hp:
+                case = {"stores": [True, True, False], "sources": [(rng.choice(PREFIXES), True), ("pre", True)],
+                        "handlers": [h, rng.choice(hp)]}
+                key = h["key"] if h["key"] is not None else "k"
+                s = rng.choice(["a", "node1", "a b"])
+                uri = "/upd/" + s.replace(" ", "%20")
+
+                def post():
+                    return ("handler", 0, {"method": "POST", "uri": uri, "ip": "192.0.2.1", "clen": "=",
+                                           "body": rng.choice([b"1", b'"x"', b"0", b"text", b""])})
+
+                def outside():
+                    v = rng.choice([0, "", None, "other", [1], False])
+                    return rng.choice([("store", rng.randrange(3), "set", s, key, v),
+                                       ("store", rng.randrange(3), "del", s, key),
+                                       ("store", rng.randrange(3), "delall", s),
+                                       ("ext", ["set", s, key, v]), ("ext", ["del", s, key]), ("ext", ["delall", s]),
+                                       ("handler", 1, {"method": "POST", "uri": uri, "ip": "192.0.2.1", "clen": "=", "body": b"7"})])
+                steps = [post()]
+                for _ in range(rng.randrange(2, 4)):
+                    steps.append(outside())
+                    if rng.random() < 0.3:
+                        steps.append(("store", rng.randrange(3), "getdata", s))
+                    steps.append(post())
+                case["steps"] = steps[:9]
+                yield case
+            # the same for a long-lived source and a long-lived store
+            for obj in ("source", "store"):
+                pre = rng.choice(PREFIXES)
+                case = {"stores": [True, True, False], "sources": [(pre, True), (rng.choice(PREFIXES), True)],
+                        "handlers": [rng.choice(hp), rng.choice(hp)]}
+                s, key = rng.choice(SYS), rng.choice(KEYS)
+                v = rng.choice([0, "", None, [], {}, False, 1, "x"])
+                lk = (pre + ":" if pre else "") + key
+
+                def look():
+                    if obj == "source":
+                        return rng.choice([("source", 0, "get", s), ("source", 0, "find", lk, v)])
+                    return rng.choice([("store", 0, "get", s, key), ("store", 0, "getdata", s), ("store", 0, "find", key, v),
+                                       ("store", 0, "list")])
+
+                def change():
+                    w = rng.choice([v, v, 0, "", None, "y"])
+                    return rng.choice([("store", 1, "set", s, key, w), ("store", 2, "del", s, key), ("store", 1, "delall", s),
+                                       ("ext", ["set", s, key, w]), ("ext", ["del", s, key]),
+                                       ("store", 2, "set", rng.choice(SYS), key, v)])
+                steps = [change(), look()]
+                for _ in range(rng.randrange(2, 4)):
+                    steps += [change(), look()]
+                case["steps"] = steps[:9]
+                yield case
         # directed: "<prefix>:" somewhere else than at the start of the lookup key, the bare prefix, prefixes of
         # prefixes; exactly one system holds (key, value), so a wrongly stripped key would be answered
         for rep in range(2 if tier == "quick" else 12):
@@ -423,6 +530,9 @@ class C15(Check):
                 quick_busy(hd._data_store._connection)
                 handlers.append(hd)
             READER.cmd({"open": path})
+            # a foreign program: one raw connection that takes/gives up the write lock, one that issues statements
+            self.locker = sqlite3.connect(path, isolation_level=None, timeout=0.02)
+            self.ext = sqlite3.connect(path, isolation_level=None, timeout=0.02)
             for st in c["steps"]:
                 try:
                     res = self.do(st, stores, sources, handlers)
@@ -431,6 +541,13 @@ class C15(Check):
                 out.append([res, READER.dump()])
         finally:
             READER.cmd({"close": 1})
+            for x in (getattr(self, "locker", None), getattr(self, "ext", None)):
+                try:
+                    if x is not None:
+                        x.close()      # closing rolls an open transaction back
+                except Exception:       # noqa: BLE001
+                    pass
+            self.locker = self.ext = None
             for x in stores + sources + handlers:
                 try:
                     x.close()
@@ -442,6 +559,22 @@ class C15(Check):
         return out
 
     def do(self, st, stores, sources, handlers):
+        if st[0] == "lock":
+            try:
+                self.locker.execute("BEGIN IMMEDIATE;" if st[1] else "ROLLBACK;")
+            except sqlite3.OperationalError:
+                pass        # already in that state
+            return [0]
+        if st[0] == "ext":
+            o = st[1]
+            if o[0] == "set":
+                self.ext.execute("INSERT OR REPLACE INTO system_data (system_id, key, value) VALUES (?, ?, ?);",
+                                 (o[1], o[2], json.dumps(o[3])))
+            elif o[0] == "del":
+                self.ext.execute("DELETE FROM system_data WHERE system_id=? AND key=?;", (o[1], o[2]))
+            else:
+                self.ext.execute("DELETE FROM system_data WHERE system_id=?;", (o[1],))
+            return [0]
         if st[0] == "store":
             s = stores[st[1]]
             op = st[2]
@@ -528,7 +661,19 @@ class C15(Check):
             hx.append([u8(p), ax, bool(h["cal"])])
         steps = []
         for st in c["steps"]:
-            if st[0] == "store":
+            if st[0] == "lock":
+                steps.append([3, bool(st[1])])
+            elif st[0] == "ext":
+                o = st[1]
+                if o[0] == "set":
+                    txt = json.dumps(o[3])
+                    note_txt(txt)
+                    steps.append([4, [0, u8(o[1]), u8(o[2]), u8(txt)]])
+                elif o[0] == "del":
+                    steps.append([4, [1, u8(o[1]), u8(o[2])]])
+                else:
+                    steps.append([4, [2, u8(o[1])]])
+            elif st[0] == "store":
                 op = st[2]
                 if op == "set":
                     o = [0, u8(st[3]), u8(st[4])] + list(vt(st[5]))
